@@ -108,7 +108,14 @@ func getC19Mat() *c19Mat {
 	add(1, w.SPEnc)
 	add(2, w.SPSign)
 	add(3, w.Other)
-	add(4, newCert("sp4", rsaKey("sp4"), certNB, certNA))
+	// key 4: a certificate whose subject contains "--" (hostile to anything that puts it into an XML comment) and whose
+	// DER encoding happens to END IN A WHITE-SPACE BYTE (the last byte of the signature: one certificate in 64): certificate
+	// bytes are binary, nothing may trim or re-interpret them
+	sp4 := newCert("sso--prod.example.com", rsaKey("sp4"), certNB, certNA)
+	for tries := 0; tries < 2000 && !strings.ContainsRune(" \t\n\r", rune(sp4.DER[len(sp4.DER)-1])); tries++ {
+		sp4 = newCert("sso--prod.example.com", rsaKey("sp4"), certNB, certNA)
+	}
+	add(4, sp4)
 	ek, err := ecdsa.GenerateKey(elliptic.P256(), rand.Reader)
 	if err != nil {
 		panic(err)
